@@ -35,7 +35,8 @@ func handleUserInfoRequest(ctx oidc.Context) (response, error) {
 
 	client, err := ctx.Client(grantSession.ClientID)
 	if err != nil {
-		return response{}, err
+		return response{}, goidc.WrapError(goidc.ErrorCodeInvalidToken,
+			"invalid token", err)
 	}
 
 	resp, err := userInfoResponse(ctx, client, grantSession)
